@@ -35,5 +35,17 @@ CLAIMED = {
         'construction routes, with the stored hashes and depths symbolic; and pruning invariance on four trees with every antichain of '
         'pruned subtrees, alone and under a Merkle proof root.',
    note='Trusted: z3; SHA-256 collision-freeness axiom; specs/cellspec.py; the shape grammar bounds (<= 3 Merkle levels, <= 6 cells).'),
+ 'C03': dict(
+   text='Bounded symbolic execution of the real to_boc/Boc parser code: every rooted DAG with <= 3 cells (out-degree <= 3), with 4 cells '
+        '(out-degree <= 2), chain/diamond/fan/repeated-reference families, pairs of cells that may be equal (de-duplication explored both '
+        'ways), 7 exotic trees, 6 option sets, 3 input encodings x 3 entry points, with ALL cell contents symbolic: the parsed root has the '
+        'identical hash and identical structure. Deep chains (to 1023) and 255..257 / 65535..65537-cell boundaries with concrete filler.',
+   note='Trusted: z3; CRC-32C inside the BoC code replaced by a memoised uninterpreted function (C18 decides the real one); SHA-256 axiom; '
+        'text ropes for hex/base64. Larger DAGs with symbolic contents are outside the bound.'),
+ 'C04': dict(
+   text='The bytes emitted by the real to_boc (symbolic contents, same DAG/option enumeration as C03) are decoded by an independent strict '
+        'decoder of boc.tlb (specs/bocspec.py); the solver shows for all contents: accepted, flags/widths right, references forward, each '
+        'distinct cell exactly once, index = cumulative end offsets (doubled with cache bits), CRC over everything before it, same DAG.',
+   note='Trusted: z3; specs/bocspec.py as a faithful strict reading of boc.tlb; CRC as uninterpreted function on both sides (span check by congruence).'),
 }
 NOT_APPLICABLE = {}
